@@ -119,7 +119,7 @@ func buildC02(tier string, seed int64) *Family {
 		insts = append(insts, nodesetInst(t, bigA))
 	}
 	return &Family{
-		Instances: dedupInst(insts),
+		Instances: withReuse(dedupInst(insts), 3),
 		Canaries: []*vm.Instance{
 			canaryInst("H_nodeset", "//*[a]", "//*[*]", cfg),
 			canaryInst("H_nodeset", "//*[. = '1']", "//*[. != '1']", cfg),
